@@ -519,6 +519,8 @@ impl<O: PlainOracle> PlainSys<O> {
     }
 }
 
+pub const STORM_DEPTH: u32 = 5;
+
 impl<O: PlainOracle> System for PlainSys<O> {
     type State = PState<O>;
     type Action = PAct;
@@ -536,15 +538,23 @@ impl<O: PlainOracle> System for PlainSys<O> {
             m: self.oracle.init(),
         }
     }
-    fn actions(&self, _s: &PState<O>, out: &mut Vec<PAct>) {
+    fn actions(&self, s: &PState<O>, out: &mut Vec<PAct>) {
+        self.actions_at(s, u32::MAX, out)
+    }
+    /// reset storms (65536 resets each) are offered only within STORM_DEPTH steps of the initial
+    /// state: on a broken implementation the state space can explode, and a storm from every one
+    /// of hundreds of thousands of states would take hours
+    fn actions_at(&self, _s: &PState<O>, depth: u32, out: &mut Vec<PAct>) {
         for &(c, v) in &self.alphabet {
             out.push(PAct::Cc(c, v));
         }
         if self.with_reset {
             out.push(PAct::Reset);
             out.push(PAct::ResetProbe);
-            for i in 0..self.storms.len() {
-                out.push(PAct::ResetStorm(i as u8));
+            if depth <= STORM_DEPTH {
+                for i in 0..self.storms.len() {
+                    out.push(PAct::ResetStorm(i as u8));
+                }
             }
         }
         out.push(PAct::TouchAll);
